@@ -1913,6 +1913,13 @@ static void fstack_account_time(struct uftrace_task_reader *task)
 				if (is_kernel_func)
 					task->stack_count += task->display_depth;
 			}
+			else if (parent && parent->func_stack == NULL) {
+				/*
+				 * the parent is not selected (--tid): its depth at
+				 * fork() is unknown, use the inherited stack depth.
+				 */
+				task->display_depth_set = false;
+			}
 
 			task->fork_handled = true;
 		}
